@@ -314,6 +314,12 @@ func (n *CandidateNode) CreateReplacement(kind Kind, tag string, value string) *
 func (n *CandidateNode) CopyAsReplacement(replacement *CandidateNode) *CandidateNode {
 	newCopy := replacement.Copy()
 	newCopy.Parent = n.Parent
+	if n.Parent == nil {
+		// a replacement of a document root still belongs to that document
+		newCopy.document = n.document
+		newCopy.filename = n.filename
+		newCopy.fileIndex = n.fileIndex
+	}
 
 	if n.IsMapKey {
 		newCopy.Key = n
